@@ -258,11 +258,35 @@ def run_impl_parallel(vh, ops_path, out_path, workers, per_chunk_timeout=3600, e
                 f.write(l + "\n")
 
 
-def run_driver(ops_path, impl_path, out_path, timeout=7200):
+def run_driver(ops_path, impl_path, out_path, prop="", timeout=7200, workers=1):
+    """runs gmdriver; with workers>1 the op/impl files are split into contiguous chunks run in parallel"""
     drv = os.path.join(LEAN, ".lake", "build", "bin", "gmdriver")
-    with open(ops_path) as fin, open(out_path, "w") as fout:
-        p = subprocess.run([drv, impl_path], stdin=fin, stdout=fout, stderr=subprocess.PIPE, text=True, timeout=timeout)
-    return p.returncode, p.stderr[-2000:]
+    ops = [l for l in open(ops_path).read().split("\n") if l]
+    impls = [l for l in open(impl_path).read().split("\n") if l]
+    workers = max(1, min(workers, len(ops)))
+    if workers == 1:
+        with open(ops_path) as fin, open(out_path, "w") as fout:
+            p = subprocess.run([drv, impl_path, prop], stdin=fin, stdout=fout, stderr=subprocess.PIPE, text=True, timeout=timeout)
+        return p.returncode, p.stderr[-2000:]
+    n = len(ops)
+    bounds = [(i * n // workers, (i + 1) * n // workers) for i in range(workers)]
+
+    def work(ix):
+        a, b = bounds[ix]
+        ip = f"{impl_path}.part{ix}"
+        with open(ip, "w") as f:
+            f.write("\n".join(impls[a:b]) + "\n")
+        p = subprocess.run([drv, ip, prop], input="\n".join(ops[a:b]) + "\n", capture_output=True, text=True, timeout=timeout)
+        os.remove(ip)
+        return p.returncode, p.stdout, p.stderr[-2000:]
+
+    with ThreadPoolExecutor(max_workers=workers) as ex:
+        res = list(ex.map(work, range(workers)))
+    with open(out_path, "w") as f:
+        for rc, so, se in res:
+            f.write(so)
+    rc = max(r[0] for r in res)
+    return rc, "".join(r[2] for r in res)[-2000:]
 
 
 def strip_private(j):
